@@ -169,8 +169,11 @@ def run(tier, seed):
             cov["samples"].append({"fork": o["fork"], "ops": [[s["op"], s["h"], s["f"], s["i"], s["v"], s["h2"]] for s in b]})
     cov["distinct"] = len(distinct)
     cov["traces_validated_against_impl"] = cov["behaviours_replayed"]
-    cov["distinct_nontrivial"] = {"distinct": len(distinct), "nontrivial": cov["behaviours_replayed"],
-                                  "rule": "distinct = hash of the behaviour; every behaviour has %d state-changing steps" % cfg["steps"]}
+    cov["evaluations"] = cov["steps_replayed"]
+    cov["distinct_nontrivial"] = len(distinct)
+    cov["rule"] = ("behaviours are generated by TLC -simulate from StateStoreSim (kind of step chosen uniformly among the "
+                   "enabled kinds, then its parameters); evaluations = steps replayed on real states; distinct = hash of "
+                   "the behaviour; every behaviour consists of %d state-changing steps, so all are non-trivial" % cfg["steps"])
     # vacuity guards
     holes = []
     for fork, (fields, fcov) in field_ops.items():
